@@ -111,6 +111,39 @@ def near_equal_family(rng, n: int) -> List[str]:
     return [frame.format(x=h) for h in hs[:n]]
 
 
+# queries that exercise every decoding path of the lexer and parser (escapes in names and
+# literals, both quote styles, numbers in every spelling, nested filters and function calls)
+RICH_QUERIES = (
+    "$[\"\\u0062\"]", "$['a\\'b']", "$[\"a\\\"b\"]", "$[?@.a == 'x\\ny']", "$[?@.b == \"\\u00e9\\t\"]", "$['\\ud83d\\ude00', \"b\"]",
+    "$..[?@.a == '\\\\' || @.b == \"\\/\"]", "$[?match(@.a, 'a\\\\.b') && @.b == 'c\\u0064']", "$.a['b', \"\\u0061\"][?@ == 'b\\u0062']",
+    "$[?@.a == 1.5e1 || @.b == -0.0 || @.c == 1E2]", "$[1:5:2, -1, 'a']", "$[?length(@.a) > 1 && count(@.*) < 10 && value(@.b) == 'b']",
+    "$[?@[?@.a == 'q\\u0071'] && !@.b]", "$..['a', \"b\\u0062\"][?(@.a || @.b) && @ != 'z\\n']",
+)
+BAD_ESCAPES = ("\\u00zz", "\\ud800", "\\udc00x", "\\u00", "\\q", "\\u001f", "\\", "\\ud83d\\u0041")
+
+
+def corruptions(rng, q: str, n: int) -> List[str]:
+    """Texts that fail to compile at some point INSIDE ``q``: truncated, with a bad escape put
+    into a string literal after some of it has been decoded, with a token damaged."""
+    out = []
+    for _ in range(n):
+        r = rng.random()
+        if r < 0.35 and len(q) > 2:
+            out.append(q[: rng.randrange(2, len(q))])
+        elif r < 0.75:
+            # a bad escape inside a quoted literal, not at its very start
+            spots = [i for i, ch in enumerate(q) if ch in "'\"" and i + 2 < len(q) and q[i + 1] not in "'\"]"]
+            if spots:
+                i = rng.choice(spots) + 1 + rng.choice((1, 1, 2))
+                out.append(q[:i] + rng.choice(BAD_ESCAPES) + q[i:])
+            else:
+                out.append(q + rng.choice(("'a" + rng.choice(BAD_ESCAPES) + "'", "[")))
+        else:
+            i = rng.randrange(1, len(q))
+            out.append(q[:i] + rng.choice(("\x00", "$", "]]", "((", "'", "\"", "\\", "&", "=", "..")) + q[i + 1 :])
+    return out
+
+
 def graft_spec(rng, base_id: str, base_json: Any) -> Dict[str, Any]:
     """A same-shaped document with other content that shares 1-3 of the base document's own
     containers by identity (children of the root preferred: they are met first)."""
@@ -384,8 +417,35 @@ def gen_history(rng, faults: bool) -> Dict[str, Any]:
     gens_at = rng.randrange(nops) if rng.random() < 0.12 else -1
     typed_at = rng.randrange(nops) if rng.random() < 0.12 else -1
     recycle_at = rng.randrange(nops) if rng.random() < 0.12 else -1
+    broken_at = rng.randrange(nops) if rng.random() < 0.25 else -1
     ngen = 0
     for k in range(nops):
+        if k == broken_at:
+            # compiles that FAIL at some point inside a query, each followed by a compile of the
+            # intact text on the same environment (and by its use): whatever the lexer or parser had
+            # in hand when it gave up must not turn up in the next query
+            q = rng.choice(RICH_QUERIES) if rng.random() < 0.7 else rng.choice(qpool)
+            e = rng.choice(envs)
+            did = f"d{len(docs)}"
+            ops.append({"op": "new_doc", "id": did, "spec": {"json": {"b": 1, "a'b": 2, "a\"b": 3, "a": {"a": "x\ny", "b": "b", "bb": 4}, "ab": 5, "\U0001f600": 6, "c": ["bb", "q", {"a": "qq", "b": "\u00e9\t"}]}}})
+            docs.append(did)
+            if rng.random() < 0.5:
+                cid = f"c{len(compiled)}"
+                ops.append({"op": "compile", "id": cid, "env": e, "q": q})
+                compiled.append(cid)
+            for bad in corruptions(rng, q, rng.choice((1, 2, 3))):
+                cid = f"c{len(compiled)}"
+                ops.append({"op": "compile", "id": cid, "env": e, "q": bad})
+                compiled.append(cid)
+                q2 = q if rng.random() < 0.7 else rng.choice(RICH_QUERIES)
+                if rng.random() < 0.5:
+                    cid = f"c{len(compiled)}"
+                    ops.append({"op": "compile", "id": cid, "env": e, "q": q2})
+                    compiled.append(cid)
+                    ops.append({"op": "apply", "c": cid, "doc": did, "entry": "find"})
+                else:
+                    ops.append({"op": "env_call", "env": e, "q": q2, "doc": did, "entry": rng.choice(("find", "finditer"))})
+            continue
         if k == recycle_at:
             # a document is evaluated through a compiled query, then let go of and collected; the
             # next document comes to lie where it was (same address, other content): whatever was
